@@ -197,8 +197,12 @@ func (s *Server) Run(addr string, opt ...Option) error {
 		s.connWg.Add(1)
 		go func() {
 			defer func() {
-				s.logger.Debug("connWg done", "op", op, "conn", localConnID)
-				s.connWg.Done()
+				// Stop waits on connWg: release it only once the conn is closed
+				// and the OnClose handler has returned
+				defer func() {
+					s.logger.Debug("connWg done", "op", op, "conn", localConnID)
+					s.connWg.Done()
+				}()
 				err := conn.close()
 				if err != nil {
 					s.logger.Error("error closing conn", "op", op, "conn", localConnID, "conn/req", "err", err)
